@@ -453,8 +453,8 @@ def abstract(v):
             if not gq.eq(M, gq.adj(M)):
                 bad_terms.append(gen.unkey(k))
     th = "(fun n => %s)" % ("".join("if lb n [%s] then No else " % "; ".join(map(str, t)) for t in bad_terms) + "Yes")
-    term = "(mkCall %s %d false KeysOk %s %s true %s false true %s %s %s %d %s %s false %s %s)" % (
-        fmt, c["nparam"], cb(herm), arity, fd, ev, cb(indices), cb(c["fmt"] == "sympy"), nb,
+    term = "(mkCall %s %d %s KeysOk %s %s true %s false true %s %s %s %d %s %s false %s %s)" % (
+        fmt, c["nparam"], cb(v["container"] == "expr" and bool(unused_params(v))), cb(herm), arity, fd, ev, cb(indices), cb(c["fmt"] == "sympy"), nb,
         fun2(off, "BZero"), diag_zero, fun2(shares, "false"), th)
     # schedule of uses: by construction of the damages
     sched = {1: [], 2: []}
@@ -471,6 +471,26 @@ def abstract(v):
             sched[n].append("UseTerm [%s]" % "; ".join(map(str, o)))
     cs = "[%s]" % "; ".join("(%d, [%s])" % (n, "; ".join(us)) for n, us in sorted(sched.items()))
     return term, cs
+
+
+def unused_params(v):
+    """parameters that occur in no non-zero term (the sympy-expression format rejects them)."""
+    c = v["case"]
+    used = set()
+    for k, M in c["H"].items():
+        if not gq.is_zero(gq.dec(M)):
+            used |= {p for p, e in enumerate(gen.unkey(k)) if e}
+    return [p for p in range(c["nparam"]) if p not in used]
+
+
+def intrinsic_defect(v):
+    """ill-posedness that the random base problem itself may carry (not a planted damage)."""
+    c = v["case"]
+    if gq.is_zero(gq.dec(c["H"][zkey(c)])) and v["container"] != "unsupported":
+        return "zero_diagonal"
+    if v["container"] == "expr" and unused_params(v):
+        return "symbols_missing"
+    return None
 
 
 def expected_term(obs):
